@@ -61,7 +61,9 @@ func (Engine) Describe() simcore.Description {
 	}
 }
 
-var denoms = []string{"uion", "uionx", "uosmo", "usdc"}
+// two pairs of denominations of which one is a prefix of the other: once as the smallest (first denomination of its
+// pairs), once as the largest (second denomination of its pairs) - record keys are built from "|"-separated names
+var denoms = []string{"uion", "uionx", "uosmo", "usdc", "usdcx"}
 
 const pruneEpoch = "twapprune"
 
@@ -76,6 +78,9 @@ func (Engine) Generate(r *simcore.RNG, tier string, idx int) *simcore.Plan {
 	p.Config["prune_limit"] = []int64{1, 2, 3, 5, 200}[r.Intn(5)]
 	p.Config["subms"] = int64(r.Intn(2)) // block times with a varying sub-millisecond part
 	faults := idx%2 == 1
+	if idx%4 == 3 {
+		p.Config["spec"] = 60 + int64(idx/4%5)*60 // permille of blocks first executed speculatively on a discarded branch (simchain.Node.Spec)
+	}
 	unit := r.Chance(0.12) // allow a pool whose price is exactly one
 	mkbal := func() simcore.Step {
 		regime := int64(0)
@@ -84,7 +89,7 @@ func (Engine) Generate(r *simcore.RNG, tier string, idx int) *simcore.Plan {
 		} else if r.Chance(0.06) {
 			regime = 2
 		}
-		a := []int64{r.Range(0, 2), r.Range(2, 3), r.Range(0, 3), r.Range(0, 4), r.Range(0, 3), regime}
+		a := []int64{r.Range(0, 2), r.Range(2, 3), r.Range(0, 4), r.Range(0, 4), r.Range(0, 3), regime}
 		for i := 0; i < 3; i++ {
 			if regime == 2 {
 				a = append(a, r.Range(1, 9999), r.Range(0, 30))
@@ -95,7 +100,7 @@ func (Engine) Generate(r *simcore.RNG, tier string, idx int) *simcore.Plan {
 		return simcore.Step{Op: "mkbal", A: a}
 	}
 	mkcl := func() simcore.Step {
-		return simcore.Step{Op: "mkcl", A: []int64{r.Range(0, 2), r.Range(0, 11), r.Range(0, 3), r.Range(0, 6)}}
+		return simcore.Step{Op: "mkcl", A: []int64{r.Range(0, 2), r.Range(0, 19), r.Range(0, 3), r.Range(0, 6)}}
 	}
 	pos := func() simcore.Step {
 		return simcore.Step{Op: "pos", A: []int64{r.Range(0, 2), r.Range(0, 7), r.Range(0, 5), r.Range(1, 9999), r.Range(5, 12), r.Range(1, 9999), r.Range(5, 12), r.Range(0, 20)}}
@@ -387,6 +392,12 @@ func (Engine) Execute(run *simcore.Run) {
 		cg.Params.IsPermissionlessPoolCreationEnabled = true
 		gs[cltypes.ModuleName] = cdc.MustMarshalJSON(&cg)
 	}})
+	n.Spec = run.Plan.Cfg("spec", 0)
+	defer func() {
+		for i := 0; i < n.Specs; i++ {
+			run.Fault("speculative-block-discarded")
+		}
+	}()
 	w := &world{run: run, n: n, keepMs: int64(keep / time.Millisecond), subMs: p.Cfg("subms", 0) == 1}
 	if !w.begin(time.Second) {
 		return
@@ -706,9 +717,10 @@ func (w *world) message(i int, st simcore.Step) bool {
 		}})
 	case "mkcl":
 		creator := n.Accts[int(st.Arg(0))%3]
-		k := int(st.Arg(1)) % 12
-		d0 := denoms[k%4]
-		d1 := denoms[(k%4+1+k/4)%4]
+		nd := len(denoms)
+		k := int(st.Arg(1)) % (nd * (nd - 1))
+		d0 := denoms[k%nd]
+		d1 := denoms[(k%nd+1+k/nd)%nd]
 		spacings := []uint64{1, 10, 100, 1000}
 		spreads := []string{"0", "0.0001", "0.0005", "0.001", "0.002", "0.003", "0.005"}
 		msg := &clmodel.MsgCreateConcentratedPool{Sender: creator.String(), Denom0: d0, Denom1: d1, TickSpacing: spacings[int(st.Arg(2))%4], SpreadFactor: osmomath.MustNewDecFromStr(spreads[int(st.Arg(3))%len(spreads)])}
